@@ -1,6 +1,7 @@
 """C07 -- 2D profile generators give simple clockwise outlines of the stated size."""
 import mathprop, geomoracles
 RUN_TARGETS = ['Run/GeomOps.vo']
+WITNESS = ['Props/Witness.vo']     # non-vacuity examples for the conditional theorems (built with the property)
 TRUSTED = ['hand model coq/Geom/Dim2.v tied to dim2.rs by the differential run (trig values from the implementation, arguments checked)',
            'theorems over R; simplicity and the oracles on sampled outputs are exploration']
 ASSUMPTIONS = ['stdlib real-number axioms']
